@@ -536,9 +536,18 @@ type e1Opts struct {
 	// RejectOK: programs the gate rejected are sent to the interpreter and must fail to compile with zero events.
 	CheckReject bool
 	MaxDropFrac float64
+	// Findings: reproducers of defects listed in known_findings.json (kind "finding"). Each is run with the batch;
+	// while it still diverges the check prints KNOWN-FINDING for its id, and the generators avoid the construct,
+	// so any other divergence is a new violation.
+	Findings []e1Finding
 	// AcceptCompileErr: interpreter compile errors on gate-valid programs are counted as "unsupported" and skipped
 	// (used by properties that are conditional on "compiles").
 	SkipUnsupported func(p *Prog, got *Result) bool
+}
+
+type e1Finding struct {
+	ID  string
+	Src string
 }
 
 func selfBin() string {
@@ -559,6 +568,9 @@ func e1Run(r *fw.Run, progs []*Prog, o e1Opts) {
 	}
 	if o.MaxDropFrac == 0 {
 		o.MaxDropFrac = 0.05
+	}
+	for _, f := range o.Findings {
+		progs = append(progs, &Prog{ID: "finding-" + f.ID, Src: f.Src, Cell: "known-finding:" + f.ID})
 	}
 	t0 := time.Now()
 	e1Gate(progs)
@@ -644,6 +656,11 @@ func e1Run(r *fw.Run, progs []*Prog, o e1Opts) {
 			r.Distinct(p.Src + p.RefSrc + strings.Join(p.Steps, "\n") + fmt.Sprint(p.Mode))
 		}
 		r.Count("events_compared", int64(len(ref.Events)))
+		for k, v := range got.Extra {
+			if n, err := strconv.ParseInt(v, 10, 64); err == nil && n != 0 {
+				r.Count("hook_"+k, n)
+			}
+		}
 		if strings.HasPrefix(ref.End, "panic:") {
 			r.Cover("ref_end", strings.SplitN(ref.End, ":", 3)[1])
 		} else {
@@ -662,6 +679,10 @@ func e1Run(r *fw.Run, progs []*Prog, o e1Opts) {
 		what := fmt.Sprintf("%s [%s]: %s", p.ID, p.Cell, diff)
 		if got.End == "crash" {
 			what = fmt.Sprintf("%s [%s]: interpreter process died: %s", p.ID, p.Cell, fw.Clip(got.Detail, 500))
+		}
+		if strings.HasPrefix(p.Cell, "known-finding:") {
+			r.Known(strings.TrimPrefix(p.Cell, "known-finding:"), rep, what)
+			continue
 		}
 		if id := ""; o.Classify != nil {
 			id = o.Classify(p, ref, got, diff)
